@@ -1,19 +1,20 @@
 """C01 - multi-buffer digests equal the standard hash (context layer X part; K and M parts are added by asmsym)."""
 from common import Evidence, Verdict
-import ctxlayer
+import ctxlayer, basectx
 import aescampaign
 
 
 def run(tier):
     ev, vd = Evidence("C01", tier), Verdict("C01", tier)
     ctxlayer.run("C01", tier, [1, 4, 5], ev, vd)
+    basectx.run("C01", tier, ev, vd)       # portable base family (block stream of the real update/final code; compression function stubbed)
     # K: the multi-buffer kernels, executed symbolically on their assembled objects against the standard compression functions
     aescampaign.run("C01", tier, ev, vd, only=("hashkernel",))
     ev.assume("decomposition K (kernel) o M (manager) o X (context layer): this run decides X; the composition is a paper argument (DESIGN.md section 3)",
               "manager contract M: a submitted job is eventually handed back completed with digest = compress*(digest_in, job bytes); submit/flush return NULL or a held job",
               "idle-context invariant: partial_block_buffer_length == total_length mod B, incoming_buffer_length == 0; total_length < 2^60")
     ev.cov["outside_bounds"] += ["the assembly schedulers *_mb_mgr_{submit,flush}_*.asm (contract M is assumed)", "SHA-NI kernels (*_ni_x1/x2), *_opt_x1, sha512_sse4 and the base C kernels",
-                                 "more than 1 (thorough: 2) block per kernel call", "the *_ctx_base.c single-buffer family"]
+                                 "more than 1 (thorough: 2) block per kernel call", "the compression functions of the *_ctx_base.c single-buffer family (their block stream is decided)"]
     ev.assume("K: for each listed kernel and every lane, z3 proves digest' = compress(digest, block) (FIPS 180-4 SHA-1/256/512, RFC 1321, GB/T 32905) for all chaining values and message bytes via cut points on every round, data_ptr += block size, reads only the lane's block bytes; one run places a lane buffer across a 4 GiB boundary",
               "the same emulator in all-concrete mode reproduces hashlib digests on these kernels (tools / evidence note)")
     return ev, vd
